@@ -409,6 +409,20 @@ impl Identify {
     /// Start [`Identify`] event loop.
     pub async fn run(mut self) {
         tracing::debug!(target: LOG_TARGET, "starting identify event loop");
+        #[cfg(litep2p_verif)]
+        if crate::verif::config_notes_enabled() {
+            crate::verif::note_config(
+                self.local_peer_id,
+                "identify",
+                format!(
+                    "pv={} ua={} own={} cap={}",
+                    self.protocol_version,
+                    self.user_agent,
+                    self.public.to_peer_id() == self.service.local_peer_id(),
+                    self.tx.max_capacity(),
+                ),
+            );
+        }
 
         loop {
             tokio::select! {
